@@ -340,7 +340,7 @@ theorem fetchAct_store (cfg : Cfg κ) (sp : Bytes) (w w' : World κ) (h : fetchA
 
 /-! ## 3. lifting through the traversal -/
 
-theorem visitAll_preserves {σ : Type} (P : σ → Prop) {f : Bytes → σ → Except Err σ}
+theorem visitAll_keeps {σ : Type} (P : σ → Prop) {f : Bytes → σ → Except Err σ}
     (hf : ∀ o st st', P st → f o st = .ok st' → P st') :
     ∀ (os : List Bytes) (st st' : σ), P st → visitAll f os st = .ok st' → P st'
   | [], st, st', hp, h => by
@@ -351,10 +351,10 @@ theorem visitAll_preserves {σ : Type} (P : σ → Prop) {f : Bytes → σ → E
     split at h
     · cases h
     · rename_i st1 h1
-      exact visitAll_preserves P hf os st1 st' (hf o st st1 hp h1) h
+      exact visitAll_keeps P hf os st1 st' (hf o st st1 hp h1) h
 
 /-- an invariant of the stage action is an invariant of the whole traversal -/
-theorem visit_preserves {σ : Type} (T : Trav σ) (r : Bool) (P : σ → Prop)
+theorem visit_keeps {σ : Type} (T : Trav σ) (r : Bool) (P : σ → Prop)
     (hact : ∀ sp st st', P st → T.act sp st = .ok st' → P st') :
     ∀ (fuel : Nat) (avail : List Bytes) (sp : Bytes) (st st' : σ),
       P st → visit T r fuel avail sp st = .ok st' → P st' := by
@@ -377,7 +377,7 @@ theorem visit_preserves {σ : Type} (T : Trav σ) (r : Bool) (P : σ → Prop)
     rename_i st1 h1
     refine hact sp st1 st' ?_ h
     split at h1
-    · exact visitAll_preserves P (fun o a b => ih _ o a b) os st st1 hp h1
+    · exact visitAll_keeps P (fun o a b => ih _ o a b) os st st1 hp h1
     · simp only [Except.ok.injEq] at h1; exact h1 ▸ hp
 
 /-- relational version: a preorder containing every successful stage action contains the traversal -/
@@ -385,9 +385,9 @@ theorem visit_rel {σ : Type} (T : Trav σ) (r : Bool) (R : σ → σ → Prop) 
     (htrans : ∀ a b c, R a b → R b c → R a c) (hact : ∀ sp st st', T.act sp st = .ok st' → R st st')
     (fuel : Nat) (avail : List Bytes) (sp : Bytes) (st st' : σ)
     (h : visit T r fuel avail sp st = .ok st') : R st st' :=
-  visit_preserves T r (R st) (fun sp a b ha hb => htrans _ _ _ ha (hact sp a b hb)) fuel avail sp st st' (hrefl st) h
+  visit_keeps T r (R st) (fun sp a b ha hb => htrans _ _ _ ha (hact sp a b hb)) fuel avail sp st st' (hrefl st) h
 
-theorem perTarget_preserves (P : World κ → Prop) {f : Bytes → World κ → Except Err (World κ)}
+theorem perTarget_keeps (P : World κ → Prop) {f : Bytes → World κ → Except Err (World κ)}
     (hf : ∀ t w w', P w → f t w = .ok w' → P w') :
     ∀ (ts : List Bytes) (w w' : World κ), P w → perTarget f ts w = .ok w' → P w'
   | [], w, w', hp, h => by
@@ -400,13 +400,13 @@ theorem perTarget_preserves (P : World κ → Prop) {f : Bytes → World κ → 
     split at h
     · cases h
     rename_i w1 h1
-    exact perTarget_preserves P hf r w1 w' (hf t w w1 hp h1) h
+    exact perTarget_keeps P hf r w1 w' (hf t w w1 hp h1) h
 
 theorem perTarget_rel (R : World κ → World κ → Prop) (hrefl : ∀ a, R a a)
     (htrans : ∀ a b c, R a b → R b c → R a c) {f : Bytes → World κ → Except Err (World κ)}
     (hf : ∀ t w w', f t w = .ok w' → R w w') (ts : List Bytes) (w w' : World κ)
     (h : perTarget f ts w = .ok w') : R w w' :=
-  perTarget_preserves (R w) (fun t a b ha hb => htrans _ _ _ ha (hf t a b hb)) ts w w' (hrefl w) h
+  perTarget_keeps (R w) (fun t a b ha hb => htrans _ _ _ ha (hf t a b hb)) ts w w' (hrefl w) h
 
 /-- one traversal per target, each with its own fuel and `avail` computed from the current world -/
 theorem perTarget_visit_rel (R : World κ → World κ → Prop) (hrefl : ∀ a, R a a)
@@ -714,10 +714,10 @@ example : ∃ loc', fetchFix ToyGood.ctx [("abcx", .blob "y")] 5 [] [⟨[], "abc
 #print axioms pushAct_store
 #print axioms fetchFix_consistent
 #print axioms fetchAct_store
-#print axioms visitAll_preserves
-#print axioms visit_preserves
+#print axioms visitAll_keeps
+#print axioms visit_keeps
 #print axioms visit_rel
-#print axioms perTarget_preserves
+#print axioms perTarget_keeps
 #print axioms perTarget_rel
 #print axioms perTarget_visit_rel
 #print axioms cmdCommit_rel
